@@ -128,7 +128,9 @@ CHECKS = {
               "the EnvWizard constructor generator _create_methods (DW/Model/GenEnv.lean): theorems C15_geninit_well_scoped / _py / "
               "C15_geninit_defaults_bound for every class and every field name (the template's own names included), "
               "C15_geninit_name_is_literal (variable names enter the text as literals only), tie: parameter list, body, dict, closure keys "
-              "and globals byte for byte over hostile names / prefixes, constructor run through its branches. For "
+              "and globals byte for byte over hostile names / prefixes, constructor run through its branches; the EnvWizard copy of the dump "
+              "generator (environ/dumpers.py) is tied to the GenDump model modulo a stated substitution (sixth call argument / closure key), "
+              "so C15_gendump_well_scoped covers it. For "
               "the v1 load generator the statement for every class is carried by the oracle (sampled), not by a theorem"),
         technique='Lean 4 proof over quoting / naming models and over text-level models of the dump-function, default load-function and EnvWizard constructor generators (scoping theorems for every class, byte-for-byte correspondence with the generated source) + tables regenerated from generated code + renaming-equivariance oracle', ref='4 C15'),
     'C16': dict(
